@@ -246,11 +246,65 @@ func runC15(s *c15Seq, limit int) *c15Run {
 	return run
 }
 
+// countingWriter accepts everything and keeps only the count (responses of several GiB).
+type countingWriter struct {
+	h      http.Header
+	status int
+	n      int64
+}
+
+func (w *countingWriter) Header() http.Header { return w.h }
+func (w *countingWriter) WriteHeader(s int) {
+	if w.status == 0 {
+		w.status = s
+	}
+}
+func (w *countingWriter) Write(b []byte) (int, error) { w.n += int64(len(b)); return len(b), nil }
+
+// c15Huge: responses beyond 2 GiB and 4 GiB (a download streamed in 64 MiB Write calls from one reused buffer): the count
+// a trailing filter reads is the number of bytes the underlying writer accepted.
+func c15Huge(ctx *core.Ctx) {
+	chunk := make([]byte, 64<<20)
+	for _, total := range []int64{1<<31 - 1, 1<<31 + 1<<20, 1<<32 + 5} {
+		var seen int64 = -1
+		c := restful.NewContainer()
+		c.Filter(func(req *restful.Request, resp *restful.Response, chain *restful.FilterChain) {
+			chain.ProcessFilter(req, resp)
+			seen = int64(resp.ContentLength())
+		})
+		ws := new(restful.WebService).Path("/huge")
+		ws.Route(ws.GET("/").To(func(req *restful.Request, resp *restful.Response) {
+			for left := total; left > 0; {
+				n := int64(len(chunk))
+				if left < n {
+					n = left
+				}
+				resp.Write(chunk[:n])
+				left -= n
+			}
+		}))
+		c.Add(ws)
+		w := &countingWriter{h: http.Header{}}
+		req := rt.Req{Method: "GET", Path: "/huge"}
+		c.Dispatch(w, rt.HTTPRequest(&req, nil))
+		ctx.Eval(1)
+		ctx.Count("huge_responses", 1)
+		ctx.Max("largest_response_bytes", int(total))
+		if seen != w.n || w.n != total {
+			ctx.Violation(-1, "c15:length:huge", fmt.Sprintf("a response of %d bytes: the underlying writer accepted %d, ContentLength() read by the trailing filter is %d", total, w.n, seen),
+				map[string]interface{}{"bytes": total, "accepted": w.n, "content_length_seen": seen})
+		}
+	}
+}
+
 func c15(ctx *core.Ctx) {
 	quietLogs()
-	ctx.Rule("generated call sequences: first call in {none, WriteHeader, WriteEntity (JSON/XML by Accept, also the 406 dead end), WriteHeaderAndEntity, WriteAsJson/Xml, WriteHeaderAndJson/Xml, WriteJson, WriteError (err / nil), WriteErrorString, WriteServiceError} with payload {small, 500-byte, nil, unmarshalable} and pretty-print on/off (package switch or Response.PrettyPrint), then 0-5 body chunks of {0,1,10,300} bytes sent with Write or io.Copy (the underlying writer is an io.ReaderFrom, as net/http's is); every 9th sequence is a plain handler behind HandleWithFilter (WriteHeader + Write); without coding and with gzip/deflate in between. Faults: the underlying writer accepts exactly k bytes then fails every call, k enumerated over EVERY byte position of the fault-free output (call boundaries and inside calls). A trailing container filter reads StatusCode()/ContentLength(). Oracle: StatusCode() == status the underlying writer received (200 if none); without coding ContentLength() == bytes accepted and the call during which the writer first failed returns the injected error; with coding (fault-free) ContentLength() == plaintext length == decoded length. Non-trivial = a run with >= 1 body byte or a non-200 status; distinct by (first call, value, pretty, coding, fault class: none/at-boundary/inside-call, failing call kind).")
+	ctx.Rule("generated call sequences: first call in {none, WriteHeader, WriteEntity (JSON/XML by Accept, also the 406 dead end), WriteHeaderAndEntity, WriteAsJson/Xml, WriteHeaderAndJson/Xml, WriteJson, WriteError (err / nil), WriteErrorString, WriteServiceError} with payload {small, 500-byte, nil, unmarshalable} and pretty-print on/off (package switch or Response.PrettyPrint), then 0-5 body chunks of {0,1,10,300} bytes sent with Write or io.Copy (the underlying writer is an io.ReaderFrom, as net/http's is); every 9th sequence is a plain handler behind HandleWithFilter (WriteHeader + Write); three responses of 2 GiB - 1, 2 GiB + 1 MiB and 4 GiB + 5 bytes streamed in 64 MiB calls; without coding and with gzip/deflate in between. Faults: the underlying writer accepts exactly k bytes then fails every call, k enumerated over EVERY byte position of the fault-free output (call boundaries and inside calls). A trailing container filter reads StatusCode()/ContentLength(). Oracle: StatusCode() == status the underlying writer received (200 if none); without coding ContentLength() == bytes accepted and the call during which the writer first failed returns the injected error; with coding (fault-free) ContentLength() == plaintext length == decoded length. Non-trivial = a run with >= 1 body byte or a non-200 status; distinct by (first call, value, pretty, coding, fault class: none/at-boundary/inside-call, failing call kind).")
 	ctx.Assume("at most one status-setting call, first in the sequence (as the property states)")
 	defer func() { restful.PrettyPrintResponses = true }()
+	if !ctx.Skip(0) {
+		c15Huge(ctx)
+	}
 	seqs := ctx.N(500, 60000)
 	statuses := []int{200, 201, 202, 400, 404, 500, 99, 1000}
 	for si := 0; si < seqs; si++ {
